@@ -83,7 +83,7 @@ func ruleC14LoserAdoptsStored(c *Ctx) {
 	c.FuncsAnalysed[shortName(mll)] = true
 	ok := false
 	allInstrs(mll, func(i ssa.Instruction) {
-		if invokeIs(i, pkgApp, "Metastore", "LoadLatest") && isParamNamed(callOf(i).Args[1], mll, 2) {
+		if args, isLL := invokeOrForwarder(i, pkgApp, "Metastore", "LoadLatest"); isLL && len(args) > 1 && isParamNamed(args[1], mll, 2) {
 			ok = true
 		}
 	})
